@@ -1,5 +1,5 @@
 (* C10 — rejected insertions are atomic, precisely classified, and return the pair. *)
-Require Import LruV.A.SpecA.
+Require Import LruV.A.SpecA LruV.A.InvA LruV.B.StepB LruV.B.RefineB LruV.B.ReachB.
 
 Definition is_ins_err (o : out) : bool :=
   match o with OInsTooLarge _ _ _ _ | OTryTooLarge _ _ _ _ | OTryWouldEject _ _ _ _ | OTryOccupied _ _ => true | _ => false end.
@@ -46,5 +46,26 @@ Example C10_precedence :
             /\ snd (fst r) = OTryWouldEject {| kid := 1; ktok := 7; kheap := 0 |} {| vtok := 8; vtag := 8; vheap := 0 |} 72 20.
 Proof. cbv zeta. eexists. split; [vm_compute; reflexivity|reflexivity]. Qed.
 
+(* at pointer level: a rejected insert / try_insert on any reachable state of the heap-of-nodes model leaves the abstraction
+   of the structure (entries in order with their recorded sizes, counter, limit, table geometry) as it was, the structure
+   coherent, drops nothing and evicts nothing *)
+Theorem C10_pointer_level : forall E VS, 0 < E -> VS <= E -> forall b k v oB b' out evs,
+  ReachB E VS b -> kheap k + vheap v + E < W ->
+  stepB E VS b (Insert k v) oB = Some (b', out, evs) \/ stepB E VS b (TryInsert k v) oB = Some (b', out, evs) ->
+  is_ins_err out = true ->
+  absB b' = absB b /\ RIb b' /\ e_dropped evs = [] /\ e_evicted evs = [].
+Proof.
+  intros E VS HE HV b k v oB b' out evs HR Hwf Hstep Herr.
+  destruct (reachB_sound E VS HE HV b HR) as [_ HRa]. pose proof (reach_inv E VS HE HV _ HRa) as HI.
+  destruct Hstep as [Hstep|Hstep]; destruct (reachB_step E VS HE HV b _ oB b' out evs HR Hstep) as (HA & HRI & _).
+  - pose proof (C10_insert E VS HE HV _ k v _ _ out evs HI Hwf HA) as H. cbv zeta in H. destruct H as [H1 H2].
+    destruct (N.lt_ge_cases (maxs (absB b)) (kheap k + vheap v + E)) as [Hlt|Hge].
+    + destruct (H1 Hlt) as (_ & Hs & ->). split; [exact Hs|]. split; [exact HRI|]. split; reflexivity.
+    + destruct (H2 Hge) as (old & -> & _). discriminate Herr.
+  - pose proof (C10_try_insert E VS HE HV _ k v _ _ out evs HI Hwf HA) as H. cbv zeta in H.
+    destruct H as (_ & _ & _ & _ & H5). destruct (H5 Herr) as (Hs & Hd & Hev). split; [exact Hs|]. split; [exact HRI|]. split; assumption.
+Qed.
+
 Print Assumptions C10_insert.
 Print Assumptions C10_try_insert.
+Print Assumptions C10_pointer_level.
